@@ -181,7 +181,7 @@ void execute_c08(const Plan &plan, Verdict &v) {
         FeedResult fl = feed(L, f, {});
         P = fl.max_pending_before;
     }
-    cfg.inbuf = (int) (P + 2 + (size_t) clampl(plan.k("slack", 0), 0, 64));
+    cfg.inbuf = (int) (P + 2 + (size_t) clampl(plan.k("slack", 0), 0, 600));
     // world R: one byte per call
     World R(cfg);
     instrument_install(R, io);
@@ -305,6 +305,18 @@ void generate_c08(Rng &r, const GenOpts &g, Plan &p) {
     mo.max_units = 4;
     long nmsg = r.chance(1, 2) ? r.range(1, 2) : r.range(1, 8);
     std::string stream;
+    if (r.chance(1, 40)) {
+        // a script pasted into a terminal or coalesced by TCP: dozens of short lines, many of them empty, in one call
+        static const char *lines[] = {"", "", "", "*OPC?", "*OPC", "TEST:TREEA?", "*IDN?", "TEST:INT32? 7", "STUB", ";", "TEST:NOPE"};
+        long nl = r.chance(1, 2) ? r.range(30, 40) : r.range(33, 120);
+        for (long i = 0; i < nl; i++) stream += std::string(lines[r.below(sizeof lines / sizeof lines[0])]) + (r.chance(4, 5) ? "\n" : gen_terminator(r));
+        p.ops.push_back(Op("stream", {}, stream));
+        p.ops.push_back(Op("cuts", {(long) stream.size() + 1}));
+        if (r.chance(1, 3)) p.ops.push_back(Op("flush_at", {r.range(0, (long) stream.size())}));
+        p.knob["slack"] = 600;
+        p.knob["queue"] = r.range(1, 8);
+        return;
+    }
     for (long i = 0; i < nmsg; i++) {
         std::string m = gen_message(r, mo);
         if (r.chance(1, 8)) m = mutate_bytes(r, m, (int) r.range(1, 3));
@@ -669,6 +681,16 @@ void generate_c09(Rng &r, const GenOpts &g, Plan &p) {
         long nh = r.range(1, 3);
         for (long i = 0; i < nh; i++) p.ops.push_back(Op("a", {}, std::string(over[r.below(sizeof over / sizeof over[0])]) + gen_terminator(r)));
         p.ops.push_back(Op("b", {}, std::string(edge[r.below(sizeof edge / sizeof edge[0])]) + gen_terminator(r)));
+        return;
+    }
+    if (r.chance(1, 30)) {
+        // the application swaps its unit table and swaps back: what a suffix meant under the other table must not stick
+        static const char *withsuf[] = {"TEST:NUMB? 5 mVpp", "TEST:NUMB? 1.5 VRMS", "TEST:NUMB 3 dbc", "TEST:NUMB? 10 V", "TEST:NUMB? 2 MV", "TEST:NUMB? 7 KHZ"};
+        long k = r.range(1, 3);
+        p.ops.push_back(Op("a", {}, std::string("TEST:UNIT ") + (r.chance(3, 4) ? "1" : "2") + gen_terminator(r)));
+        for (long i = 0; i < k; i++) p.ops.push_back(Op("a", {}, std::string(withsuf[r.below(6)]) + gen_terminator(r)));
+        p.ops.push_back(Op("a", {}, std::string("TEST:UNIT 0") + gen_terminator(r)));
+        p.ops.push_back(Op("b", {}, std::string(withsuf[r.below(6)]) + gen_terminator(r)));
         return;
     }
     MsgGenOpts ma;
